@@ -5,10 +5,17 @@ pub type ParseResult<T> = Result<T, Diag>;
 pub enum TokenKind { Semicolon, LeftBrace, Else, If, Identifier, Colon, Equal, Other }
 #[derive(Clone, Copy)]
 pub struct Token { pub k: TokenKind, pub id: u64 }
-pub struct Expr { pub id: u64 }
+pub struct CallT { pub id: u64 }
+pub enum Trailer { Call(Box<CallT>), Other(u64) }
+pub struct Atom { pub trailers: Vec<Trailer> }
+pub enum Expr { Leaf(u64), Atom(Box<Atom>) }
+pub struct Launch { pub closure: Expr }
+impl Launch { pub fn new(closure: Expr) -> (r: Launch) ensures r.closure == closure { Launch { closure } } }
+pub struct Raise { pub error: Expr }
+impl Raise { pub fn new(error: Expr) -> (r: Raise) ensures r.error == error { Raise { error } } }
 pub struct Return { pub return_: Token, pub value: Option<Expr> }
 impl Return { pub fn new(return_: Token, value: Option<Expr>) -> (r: Return) ensures r.return_ == return_, r.value == value { Return { return_, value } } }
-pub enum Stmt { Return(Box<Return>), If(Box<If>), Other }
+pub enum Stmt { Return(Box<Return>), If(Box<If>), Launch(Box<Launch>), Raise(Box<Raise>), Other }
 #[derive(Clone, Copy)] pub enum BlockReturn { Can, Cannot }
 pub struct Block { pub id: u64 }
 pub enum Else { If(Box<If>), Block(Block) }
